@@ -38,7 +38,9 @@ mod verif_nx_filefmt {
     #[test]
     fn verif_nx_filefmt_roundtrip() {
         let mut n = 0u64;
-        let cases: [(&'static Encoding, Option<&[u8]>); 6] = [
+        let cases: [(&'static Encoding, Option<&[u8]>); 8] = [
+            (encoding_rs::UTF_16LE, None),
+            (encoding_rs::UTF_16BE, None),
             (encoding_rs::UTF_8, None),
             (encoding_rs::UTF_8, Some(&[0xEF, 0xBB, 0xBF])),
             (encoding_rs::UTF_16LE, Some(&[0xFF, 0xFE])),
